@@ -21,9 +21,10 @@ REFUTED = ("postcondition not satisfied", "precondition not satisfied", "possibl
            "loop invariant", "unreachable", "decreases not satisfied", "recommendation not met")
 CANARY_FN = "rp_canary_must_fail"
 
-LABEL_DEPS = {}
+LABEL_DEPS = {}; FN_BODY_PROPS = {}
 try:
-    LABEL_DEPS = json.load(open(os.path.join(VERIF, "label_deps.json"))).get("clauses", {})
+    _ld = json.load(open(os.path.join(VERIF, "label_deps.json")))
+    LABEL_DEPS = _ld.get("clauses", {}); FN_BODY_PROPS = _ld.get("fn_body_props", {})
 except Exception:
     pass
 
@@ -109,6 +110,8 @@ def classify(run, lmap, fns_by_key):
         body_level = not (label and part in ("ensures", "theorem"))
         if body_level:
             props |= set(safety)
+            # a function verified against a defining axiom (as_ref, serialize): the properties of what rests on that axiom
+            if key: props |= set(FN_BODY_PROPS.get(key, []))
         if not props and key and key in fns_by_key:
             # body-level failure in a function without a safety tag: it belongs to the properties that function's own contract names
             for l in fns_by_key[key].get("ens_labels", []): props |= set(label_props(l))
@@ -428,8 +431,23 @@ def main(argv):
                     print("UNDECIDED-OBLIGATION: property=%s %s (%s): %s; no concrete failing input found" % (pid, f["obligation"], f["kind"], weak(f)))
                 for k, why in out_of_reach:
                     print("UNDECIDED: property=%s function %s is outside the verifier's reach (%s) and the bounded witness search found no failing input" % (pid, k, why))
+        bounded = None
+        if a.tier == "thorough" and not a.no_replay and not (new_fails or out_of_reach or out_of_reach_cone):
+            # thorough only: the bounded witness search also runs when nothing was refuted - a concrete cross-check of the ASSUMED contracts
+            # (crypto, base64, serde, time shims) against the real crates and an independent transcription of the spec.  Not proof, labelled bounded.
+            bounded = find_witness(pid, [], a.src)
+            if bounded.get("found"):
+                hit = next((k for k in kf if k.get("witness_prefix") and str(bounded.get("witness", "")).startswith(k["witness_prefix"])), None)
+                if hit: print("KNOWN-FINDING: property=%s %s" % (pid, hit["what_fails"]))
+                else:
+                    rc = 1
+                    rdir = os.path.join(VERIF, "replays"); os.makedirs(rdir, exist_ok=True)
+                    replay_path = os.path.join(rdir, "%s.json" % pid)
+                    json.dump({"property": pid, "failed_obligations": [], "witness": bounded, "note": "every obligation is discharged, yet the bounded search found a concrete failing input on the real code: an assumed contract (shim) or the specification transcription does not describe the real dependency"}, open(replay_path, "w"), indent=1)
+                    print("WITNESS: %s" % bounded.get("witness"))
+                    print("VIOLATION property=%s replay=%s" % (pid, replay_path))
         if not a.no_evidence:
-            write_evidence(pid, a.tier, seed, obls, discharged, fails, runs, vr, times, ctx, assumptions_scan, trusted, time.time() - t0, unit, out_of_reach, kani_info)
+            write_evidence(pid, a.tier, seed, obls, discharged, fails, runs, vr, times, ctx, assumptions_scan, trusted, time.time() - t0, unit, out_of_reach, kani_info, bounded)
     if rc == 0 and exit_undecided:
         return 2
     if rc == 0:
@@ -494,7 +512,7 @@ def find_witness(pid, fails, src):
     except Exception as e:
         return {"found": False, "note": "witness finder failed to run: %r" % e}
 
-def write_evidence(pid, tier, seed, obls, discharged, fails, runs, vr, times, ctx, scan, trusted, wall, unit, out_of_reach=(), kani_info=None):
+def write_evidence(pid, tier, seed, obls, discharged, fails, runs, vr, times, ctx, scan, trusted, wall, unit, out_of_reach=(), kani_info=None, bounded=None):
     fn_under = [f for f in ctx.fn_index if f["contract"]]
     smt = times.get("smt", {}) if isinstance(times, dict) else {}
     fb = []
@@ -538,6 +556,8 @@ def write_evidence(pid, tier, seed, obls, discharged, fails, runs, vr, times, ct
             "unit": os.path.relpath(unit, VERIF),
             "refuted": [f["obligation"] for f in fails],
             "functions_outside_verifier": [k for k, _ in out_of_reach],
+            "attribution_table": {"clauses_analysed": len(LABEL_DEPS), "clauses_with_dependents": sum(1 for v in LABEL_DEPS.values() if v.get("dependents")), "source": "label_deps.json (tools/label_deps.py: each clause replaced by `true`, callers re-verified)"},
+            "bounded_cross_check": ({"what": "witness finder of replay/ run on this tree although nothing was refuted (thorough tier): concrete cross-check of the assumed contracts against the real crates; bounded, not counted as proof", "found": bool(bounded.get("found")), "witness": bounded.get("witness")} if bounded is not None else "not run in this tier"),
             "kani": ({"backend": "kani 0.68 / cbmc", "harnesses": kani_info["results"], "wall_s": round(kani_info.get("wall", 0), 1), "cmd": kani_info.get("cmd")} if kani_info else "not run in this tier (header constants are then an assumption of the Verus unit)"),
         },
         "assumptions": trusted.get("assumption_text", []) + trusted.get("assumption_text_" + pid, []),
